@@ -5,23 +5,65 @@ import os
 
 HERE = os.path.dirname(os.path.dirname(os.path.abspath(__file__)))
 
+def C(technique, text, note, ref):
+    return dict(technique=technique, text=text, note=note, ref=ref)
+
+
 CHECKS = {
-    "C01": dict(
-        technique="Hypothesis generated eager calls vs per-group NumPy reference model, all engines",
-        text="Generated-input exploration: every accepted engine must equal an independent per-group NumPy model on "
-        "generated values/labels (dyadic alphabets => exact comparison). Bounds: n<=24 (40 thorough), <=6 groups, "
-        "0-2 batch dims. No absence claim beyond the explored region.",
-        note="Trusts NumPy reductions as oracle; numba engine sampled sparsely (JIT cost).",
-        ref="§4 C01",
-    ),
-    "C02": dict(
-        technique="Hypothesis differential: chunked (method x reindex x chunking x dask labels) vs eager",
-        text="Generated-input differential exploration: computed chunked result and groups must be identical to the eager "
-        "call for drawn plans over {None, map-reduce, cohorts, blockwise} x reindex {None, True, False}, arbitrary "
-        "chunkings of every axis, numpy or independently chunked dask labels.",
-        note="Eager result is the reference (C01 ties it to NumPy); chunk sizes <= 8, <= 8 blocks per axis.",
-        ref="§4 C02",
-    ),
+    "C01": C("Hypothesis-generated eager calls vs independent per-group NumPy reference model, all engines",
+             "Generated-input exploration: every accepted engine must equal a per-group NumPy model on generated values/labels "
+             "(dyadic alphabets => exact comparison). Bounds: n<=24 (40 thorough), <=6 groups, 0-2 batch dims.",
+             "Trusts NumPy reductions as oracle; numba engine sampled sparsely (JIT cost).", "§4 C01"),
+    "C02": C("Hypothesis differential: chunked (method x reindex x chunking x dask labels) vs eager",
+             "Generated-input differential exploration: computed chunked result and groups must be identical to the eager call "
+             "for drawn plans over {None, map-reduce, cohorts, blockwise} x reindex {None, True, False}, arbitrary chunkings of "
+             "every axis, numpy or independently chunked dask labels.",
+             "Eager result is the reference (C01 ties it to NumPy); chunk sizes <= 8, <= 8 blocks per axis.", "§4 C02"),
+    "C03": C("Hypothesis metamorphic sweep: every split_every x sync/threads/owned-scheduler topological orders vs baseline",
+             "Generated cases with 3-16 blocks; systematic sweep of split_every (all tree depths) and of task orders under a "
+             "harness-owned dask scheduler (random, min/max key, DFS, BFS), threaded and synchronous schedulers, optimised and "
+             "unoptimised graphs; every run must equal the single-level synchronous baseline; scans equal the eager scan.",
+             "Preemptive interleavings are not explored (reduced to task purity, C13).", "§4 C03"),
+    "C04": C("Exhaustive small-scope enumeration (all value sequences x all 3-way splits x plans) + Hypothesis user-Aggregation programs",
+             "For every block-stage aggregation: all ordered sequences up to length 4 (5 thorough) over an alphabet with negatives, "
+             "0, NaN, +-inf, all ordered 3-way splits incl. empty parts, three plans with two combine levels: merged == one block "
+             "== eager == NumPy. User Aggregation objects from a grammar obey the same law.",
+             "arg-reductions asserted on NaN-free rows only; var/std tolerance 1e-12.", "§4 C04"),
+    "C05": C("Hypothesis vs slot reference model (expected_groups relation x fill_value x min_count x engines x plans) + metamorphic twin",
+             "Generated exploration against an explicit slot model: one slot per requested label in requested order, absent and "
+             "min_count-masked slots hold the fill verbatim, other slots equal the NumPy reference; eager and chunked.",
+             "Present-but-all-NaN groups with a fill and min_count=None are unspecified and not asserted.", "§4 C05"),
+    "C06": C("Hypothesis + exhaustive small scope vs global-position reference, ties/NaNs placed at chunk borders",
+             "Generated and exhaustively enumerated arrays with ties and NaNs on both sides of chunk borders; arg*/first/last "
+             "family must return whole-array positions/members for every chunking, method and split_every.",
+             "arg* asserted on NaN-free groups (nanarg*: not all-NaN), as the property states.", "§4 C06"),
+    "C10": C("Hypothesis + exhaustive small scope vs per-group sequential NumPy scans; mirror and twin metamorphic relations",
+             "Generated arrays with NaN runs across chunk borders and interleaved groups; nancumsum/ffill/bfill eager and chunked "
+             "(1-12 blocks) equal the per-group sequential scan; bfill mirrors ffill; missing labels do not disturb others.",
+             "Positions with missing labels are only held to eager == chunked.", "§4 C10"),
+    "C12": C("Hypothesis over configuration product with poisoned inputs and a zero-quota counting scheduler",
+             "API calls are made on inputs whose every block raises when evaluated, under a scheduler that refuses any invocation: "
+             "any evaluation during graph construction is caught; lazy return type checked; compute-time label->value mapping "
+             "equals the eager mapping for dask labels without expected_groups.",
+             "Non-object label dtypes.", "§4 C12"),
+    "C13": C("Hypothesis graphs executed by an instrumented owned scheduler (digests, double execution, cloudpickle, late re-execution)",
+             "Every task of generated reduction/scan graphs is executed with input digests taken before/after, executed twice, "
+             "executed from a cloudpickle clone; user arrays' digests compared; drawn tasks re-executed after completion; "
+             "threaded runs compared.",
+             "Purity judged by content digests of arrays; benign memoisation inside the per-call Aggregation copy is not state.", "§4 C13"),
+    "C14": C("Hypothesis model-based call histories with fresh-process oracle + co-computation pairs/triples",
+             "Generated call sequences over a shared argument pool with invariants after every step (argument digests, registry "
+             "snapshot), last/drawn calls re-evaluated first in a fresh process; pairs/triples of lazy results differing in one "
+             "ingredient computed together in both orders vs alone.",
+             "Histories <= 8 steps quick / 20 thorough; fresh state = process forked from a pristine 'import flox' server.", "§4 C14"),
+    "C18": C("Hypothesis + exhaustive small scope vs numpy.quantile/nanquantile(method='linear')",
+             "Generated finite+NaN arrays, all group sizes incl. all-NaN groups, scalar/vector q, engines, batch dims, chunked "
+             "layouts (batch-only, group-aligned, straddling => must refuse) against NumPy's linear quantiles.",
+             "rtol=atol=1e-12 (float32 1e-6); infinities excluded per the property.", "§4 C18"),
+    "C20": C("Hypothesis vs exact reference (Python ints / NumPy) for +-inf extremes, narrow-int totals, var/std eager vs chunked",
+             "Generated arrays with infinite extremes, narrow-integer data whose totals exceed the input width, and non-dyadic "
+             "float data for var/std; every engine and strategy against exact references and eager-vs-chunked closeness.",
+             "Totals kept < 2**53; var tolerance 1e-9 rel + 1e-12 abs on the variance.", "§4 C20"),
 }
 
 NOT_APPLICABLE = {
